@@ -63,6 +63,7 @@ handle's own that is not persisted yet (the store's `refCheck` also accepts refe
 into novel tables) -/
 def AddSafe (s : Sys) : Op → Prop
   | .addTables i _ => (s.hs i).upstream.root ≠ 0 ∧ MemEmpty (s.hs i) ∧ ∀ a, ¬ N (s.hs i) a
+  | .conjoin _ => False      -- conjoin is outside the C07 development (it replaces tables; C02 and C05 cover it)
   | _ => True
 
 theorem rinv_addTables (env : Env) (s : Sys) (hr : RInv env s) (i : Nat) (ts : List Table) (hpc : (s.hs i).pc = none)
@@ -284,6 +285,7 @@ theorem rinv_step (env : Env) (s : Sys) (hr : RInv env s) (op : Op) (hsafe : Add
     · rename_i hg
       have hpc : (s.hs i).pc = none := by cases h : (s.hs i).pc <;> simp [h] at hg ⊢
       exact rinv_addTables env s hr i ts hpc hsafe _ rfl
+  | conjoin i => exact absurd hsafe (by simp [AddSafe])
 
 theorem rinv_next (env : Env) (s : Sys) (hr : RInv env s) (op : Op) (hsafe : AddSafe s op) : RInv env (s.next env op).1 :=
   rinv_congr (next_manifest env s op) (next_hs env s op) (rinv_step env s hr op hsafe)
